@@ -163,6 +163,19 @@ def _p_norm(p: float, critical_pairs: list = []):
                 ev_x1 = np.abs(slope * x1 + b) ** (p + 1) / (np.abs(slope) * (p + 1))
                 ev_x0 = np.abs(slope * x0 + b) ** (p + 1) / (np.abs(slope) * (p + 1))
                 result += ev_x1 + ev_x0
+            # nearly horizontal segment on one side of the x-axis: the closed
+            # form below divides a difference of almost equal numbers by a
+            # vanishing slope. With t the relative drop from the larger end
+            # value to the smaller one, the same integral is
+            # big^p * ((1 + t)^(p+1) - 1) / ((p+1) * t), which expm1/log1p
+            # evaluate accurately as t -> 0.
+            elif np.abs(y1 - y0) <= 1e-3 * max(np.abs(y0), np.abs(y1)):
+                big = max(np.abs(y0), np.abs(y1))
+                t = (min(np.abs(y0), np.abs(y1)) - big) / big
+                result += (
+                    (x1 - x0) * big**p
+                    * np.expm1((p + 1) * np.log1p(t)) / ((p + 1) * t)
+                )
             # segment does not cross the x-axis
             else:
                 ev_x1 = np.abs(slope * x1 + b) ** (p + 1) / (slope * (p + 1))
